@@ -173,7 +173,11 @@ func (s *Solver) define(t *Term) {
 		s.defined[t.ID] = true
 		id := t.ID
 		s.undo(func() { delete(s.defined, id) })
-		fmt.Fprintf(&sb, "(define-fun t%d () %s %s)\n", t.ID, sortStr(t.W), body(t))
+		// A named constant with a defining equation instead of a define-fun macro: z3 expands nested 0-ary
+		// macros at parse time, which on deep shared DAGs (bits.Len64 chains, varint code) cost ~10x the
+		// solving time (measured 7.9 s vs 0.6 s on one C17 transcript). Equisatisfiable, same models for
+		// the declared variables; scoped by push/pop exactly like the macro was.
+		fmt.Fprintf(&sb, "(declare-const t%d %s)\n(assert (= t%d %s))\n", t.ID, sortStr(t.W), t.ID, body(t))
 	}
 	rec(t)
 	if sb.Len() > 0 {
